@@ -114,17 +114,17 @@ def cases(tier, seed):
                "runner_df"]
     strats = ["seq", "shuffleT", "shuffle3", "exec"]
     j = 0
-    for (ik, ispec), (dname, d) in itertools.product(inputs(tier),
-                                                     DESCS.items()):
+    ins = inputs(tier)
+    if tier == "quick":
+        # quick thins the *inputs*; every spelling of every description goes
+        # through every entry point on the inputs that remain
+        ins = ins[::4]
+    for (ik, ispec), (dname, d) in itertools.product(ins, DESCS.items()):
         spell = list(itertools.product(range(len(d["vn"])), range(len(d["vd"]))))
         for si, (vni, vdi) in enumerate(spell):
             j += 1
-            if tier == "quick" and (j % 3):
-                continue
             for ei, entry in enumerate(entries):
                 if entry in ("to_df", "runner_df") and dname not in DF_OK:
-                    continue
-                if tier == "quick" and (ei + j // 3) % 3:
                     continue
                 yield {"input": ik, "spec": ispec, "desc": dname, "vn": vni,
                        "vd": vdi, "entry": entry,
